@@ -12,7 +12,7 @@ MCS = [('MCSchedule', 'MCSchedule.cfg')]
 def run(tier, seed, t0):
     mcs = [(m, c.replace("{T}", "T" if tier == "thorough" else "")) for (m, c) in MCS]
     return daemon.run_group(PROP, tier, seed, t0, FAMILIES, "TraceBrowse", "TraceBrowse.cfg", PREFIXES, mcs,
-                            ['C19.schedule'], ASSUME, RULE, n_quick=80, n_thorough=2000)
+                            ['C19.schedule', 'C19.loop-one', 'C19.loop-sched'], ASSUME, RULE, n_quick=80, n_thorough=2000)
 
 
 def replay(path, seed):
